@@ -110,13 +110,54 @@ def _viol_once(rep, rid, key, msg, loc=None):
     rep.viol(rid, key, msg, loc)
 
 
+
+def moved_ok(C, groups, lookup, path_of, key, n):
+    """helper-extraction tolerance for the table censuses: see Census.moved_from_reviewed. groups: {(fn_key, kind): [sites]},
+    lookup(fn_key, kind) -> reviewed count or None, path_of: fn_key -> def path. Budget taken from a caller is remembered."""
+    fk, kind = key
+    used = groups.setdefault('__used__', {})
+    cur = {}
+    for k, v in groups.items():
+        if k != '__used__':
+            cur[k] = len(v)
+
+    def spare(g):
+        gk = C.fn_key(g)
+        cnt = lookup(gk, kind)
+        if cnt is None:
+            return None
+        return cnt - cur.get((gk, kind), 0) - used.get((gk, kind), 0)
+    path = path_of.get(fk)
+    if not path:
+        return None
+    tops = C.moved_from_reviewed(path, n, spare)
+    if tops:
+        for g in tops:
+            gk = C.fn_key(g)
+            used[(gk, kind)] = used.get((gk, kind), 0) + n
+    return tops
+
+
 def census_part(F, C, R, rep, tag=''):
     """R14.1 + R14.2 over one configuration (tag names a non-default feature set)"""
     sites = C.panic_sites(R)
+    pgroups = {}
+    for key, fn, c, kind, msg in sites:
+        pgroups.setdefault((C.fn_key(fn), kind), []).append(c)
+    ppaths = {C.fn_key(fn): fn for _k, fn, _c, _kd, _m in sites}
+
+    def reviewed_panics(g, k):
+        n = sum(1 for i in range(24) if match_table(T.PANIC_TABLE, '%s|%s|#%d' % (g, k, i))[0])
+        return n or None
+    moved_seen = set()
     for key, fn, c, kind, msg in sites:
         verdict, reason = match_table(T.PANIC_TABLE, key)
+        fk1 = C.fn_key(fn)
         if verdict:
             rep.ok('R14.1', tag + key, '%s: %s' % (verdict, reason))
+        elif (fk1, kind) in moved_seen or (reviewed_panics(fk1, kind) is None and moved_ok(C, pgroups, reviewed_panics, ppaths, (fk1, kind), len(pgroups[(fk1, kind)]))):
+            moved_seen.add((fk1, kind))
+            rep.ok('R14.1', tag + key + ' (moved)', 'helper reached only from reviewed functions that lost at least as many %s sites' % kind)
         else:
             _viol_once(rep, 'R14.1', key, 'unreviewed panic site in the pure language: %s in %s%s - a failure here unwinds through try/catch instead of raising a catchable error'
                      % (kind, C.fn_key(fn), (' ("%s")' % msg) if msg else ''), c.loc())
@@ -157,12 +198,12 @@ def census_part(F, C, R, rep, tag=''):
             continue
         fk = C.fn_key(fn)
         per.setdefault((fk, kind), []).append((b, bb))
-    rep.extra[tag + 'arithmetic_asserts'] = {'total': len(asites), 'auto_discharged': auto, 'table_sites': sum(len(v) for v in per.values())}
+    rep.extra[tag + 'arithmetic_asserts'] = {'total': len(asites), 'auto_discharged': auto, 'table_sites': sum(len(v) for k_, v in per.items() if k_ != '__used__')}
     for cls, n in auto.items():
         if n:
             rep.ok('R14.2', tag + 'class %s' % cls, '%d assert(s) discharged automatically' % n)
     used = set()
-    for (fk, kind), lst in sorted(per.items()):
+    for (fk, kind), lst in sorted((k_, v_) for k_, v_ in per.items() if k_ != '__used__'):
         ent = None
         for row in T.ARITH_TABLE:
             rx, k, cnt, reason = row[:4]
@@ -184,6 +225,8 @@ def census_part(F, C, R, rep, tag=''):
         elif ent:
             _viol_once(rep, 'R14.2', '%s|%s|count' % (fk, kind), '%s now has %d unguarded %s assert(s), the reviewed table covers %d: new machine arithmetic on possibly user-controlled values needs review'
                      % (fk, len(lst), kind, ent[1]), lst[-1][0].loc(lst[-1][1]))
+        elif moved_ok(C, per, lambda g, k: next((row[2] for row in T.ARITH_TABLE if row[1] == k and re.search(row[0], g)), None), {C.fn_key(x[0].path): x[0].path for v in per.values() if isinstance(v, list) for x in v}, (fk, kind), len(lst)):
+            rep.ok('R14.2', tag + '%s %s x%d (moved)' % (fk, kind, len(lst)), 'helper reached only from reviewed functions that lost at least as many such asserts')
         else:
             _viol_once(rep, 'R14.2', '%s|%s' % (fk, kind), 'unguarded machine arithmetic (%s x%d) in %s: panics in debug builds / wraps in release for extreme values'
                      % (kind, len(lst), fk), lst[0][0].loc(lst[0][1]))
@@ -202,7 +245,7 @@ def census_part(F, C, R, rep, tag=''):
             perk.setdefault((fk, kind), []).append((b, bb))
     for cls, n in sorted(autoc.items()):
         rep.ok('R14.9', tag + 'class %s' % cls, '%d indexing site(s) discharged automatically' % n)
-    for (fk, kind), lst in sorted(perk.items()):
+    for (fk, kind), lst in sorted((k_, v_) for k_, v_ in perk.items() if k_ != '__used__'):
         ent = None
         for rx, k, cnt, reason in T.INDEX_TABLE:
             if k == kind and re.search(rx, fk):
@@ -213,13 +256,15 @@ def census_part(F, C, R, rep, tag=''):
         elif ent:
             _viol_once(rep, 'R14.9', '%s|index:%s|count' % (fk, kind), '%s now has %d %s indexing operations, %d were reviewed: an index that is not provably in range panics instead of raising an index error'
                        % (fk, len(lst), kind, ent[0]), lst[-1][0].loc(lst[-1][1]))
+        elif moved_ok(C, perk, lambda g, k: next((cnt for rx, kk, cnt, _r in T.INDEX_TABLE if kk == k and re.search(rx, g)), None), {C.fn_key(x[0].path): x[0].path for v in perk.values() if isinstance(v, list) for x in v}, (fk, kind), len(lst)):
+            rep.ok('R14.9', tag + '%s %s x%d (moved)' % (fk, kind, len(lst)), 'helper reached only from reviewed functions of this kind that lost at least as many sites')
         else:
             what = {'str-range': 'slicing a str by byte positions panics when a position is not a char boundary (or out of range)',
                     'HashMap': 'indexing a map panics on a missing key'}.get(kind, 'an index or range that is not provably inside the sequence panics')
             _viol_once(rep, 'R14.9', '%s|index:%s' % (fk, kind), 'unreviewed indexing (%s x%d) in %s, reachable from the pure language: %s - it must be an index/value error a program can catch'
                        % (kind, len(lst), fk, what), lst[0][0].loc(lst[0][1]))
     rep.floor('R14.9', 'indexing sites examined', len(isites), 90)
-    rep.extra[tag + 'indexing_sites'] = {'total': len(isites), 'auto_discharged': autoc, 'table_sites': sum(len(v) for v in perk.values())}
+    rep.extra[tag + 'indexing_sites'] = {'total': len(isites), 'auto_discharged': autoc, 'table_sites': sum(len(v) for k_, v in perk.items() if k_ != '__used__')}
 
     # ---- std APIs with index / range / radix preconditions
     from .census import std_precondition_sites
@@ -233,7 +278,7 @@ def census_part(F, C, R, rep, tag=''):
             pers.setdefault((fk, api), []).append(c)
     for cls, n in sorted(autos.items()):
         rep.ok('R14.10', tag + 'class %s' % cls, '%d call(s) discharged automatically' % n)
-    for (fk, api), lst in sorted(pers.items()):
+    for (fk, api), lst in sorted((k_, v_) for k_, v_ in pers.items() if k_ != '__used__'):
         ent = None
         for rx, k, cnt, reason in T.STDPRE_TABLE:
             if k == api and re.search(rx, fk):
@@ -243,6 +288,8 @@ def census_part(F, C, R, rep, tag=''):
             rep.ok('R14.10', tag + '%s %s x%d' % (fk, api, len(lst)), 'reviewed: ' + ent[1])
         elif ent:
             _viol_once(rep, 'R14.10', '%s|%s|count' % (fk, api), '%s now calls %s %d time(s), %d were reviewed: the call panics when its position / range / radix argument is out of range' % (fk, api, len(lst), ent[0]), lst[-1].loc())
+        elif moved_ok(C, pers, lambda g, k: next((cnt for rx, kk, cnt, _r in T.STDPRE_TABLE if kk == k and re.search(rx, g)), None), {C.fn_key(x.body.path): x.body.path for v in pers.values() if isinstance(v, list) for x in v}, (fk, api), len(lst)):
+            rep.ok('R14.10', tag + '%s %s x%d (moved)' % (fk, api, len(lst)), 'helper reached only from reviewed functions that lost at least as many such calls')
         else:
             _viol_once(rep, 'R14.10', '%s|%s' % (fk, api), 'unreviewed call of %s in %s (x%d), reachable from the pure language: it panics on an out-of-range position, an inverted or out-of-range range, a non-boundary string position, a zero size or a radix above 36' % (api, fk, len(lst)), lst[0].loc())
     rep.floor('R14.10', 'std precondition call sites examined', len(ssites), 50)
